@@ -50,6 +50,7 @@ func (vc *VC) refineOne(st *State, x *ast.CallExpr, fc *FuncContract, ci *callee
 	// an arbitrary moment during the callee's execution: every heap unknown, the caller's locals unchanged
 	s0 := st.clone()
 	vc.havocAllHeaps(s0)
+	vc.havocClientInv(s0)
 	lsig := cu.Sig
 	var cargs []Term
 	for i := 0; i < lsig.Params().Len(); i++ {
@@ -94,6 +95,7 @@ func (vc *VC) refineOne(st *State, x *ast.CallExpr, fc *FuncContract, ci *callee
 	// effect of the literal by its own contract
 	s1 := s0.clone()
 	old := s0.clone()
+	vc.havocClientInv(s1)
 	clCtx.cur, clCtx.old = s1, old
 	for _, m := range cc.Modifies {
 		vc.havocLocation(clCtx, s1, m)
@@ -218,6 +220,9 @@ func (vc *VC) frameTargets(ctx *SpecCtx, m *Clause) ([]frameTarget, bool) {
 						hn, _ := fieldHeapName(ts, f)
 						return []frameTarget{{hn, ""}}, false
 					}
+				}
+				if hn, _, ok := vc.ghostFieldHeapOfType(ctx, tt, sel.Sel); ok {
+					return []frameTarget{{hn, ""}}, false
 				}
 			}
 		}
